@@ -4,7 +4,8 @@
 //! and to cross-check the model with the repository's own unit tests).
 #![allow(unused, dead_code)]
 
-#[path = "/repo/node/src/block_ranges.rs"]
+// generated at run time by vlib/slicegen.py: verbatim copy of /repo/node/src/block_ranges.rs + accessor module
+#[path = "generated/block_ranges.rs"]
 pub mod block_ranges;
 
 /// The repository's unit tests in `block_ranges.rs` import this helper from `crate::test_utils`.
